@@ -45,11 +45,11 @@ ALL = {
  "C11": E("proof", "Coq theorems (Props/C11.v): in a heap model of Copy, fresh treatment of every mutable field implies copy and original observe the same at copy time and are independent under all later writes; an aliased field refutes it. Tie: the field table of solutionImpl/Copy regenerated from /repo (with the source field of every copied slice) equals the reference and satisfies the discipline (Coq obligations each run) + copy-then-mutate histories with snapshots (incl. the cached slack) of every live solution vs the model; a copy must equal its original when taken.",
           "Coq proof (heap model, frame) + regenerated-table obligation + differential histories",
           "that Go operations write only through their own solution is checked dynamically, not proved; concurrent use is left to the race detector (C14 thorough)."),
- "C12": E("proof", "Coq theorems (Props/C12.v): a random stream shared by the order-generator goroutine and its consumer gives schedule-independent draws exactly when no phase has draws on both sides; refuted otherwise (witness). Tie: skeletons of SequenceGeneratorChannel / sequenceGenerator / the start-solution construction (no Copy inside its goroutines) regenerated each run; repeated identical runs of the real solver, also with 2-4 start solutions and goroutine timing perturbed per repetition. The unchanged code shares the stream in the order generator: known finding.",
+ "C12": E("proof", "Coq theorems (Props/C12.v): a random stream shared by the order-generator goroutine and its consumer gives schedule-independent draws exactly when no phase has draws on both sides; refuted otherwise (witness). Tie: skeletons of SequenceGeneratorChannel / sequenceGenerator / the start-solution construction (no Copy inside its goroutines) regenerated each run; repeated identical runs of the real solver, also with 2-4 start solutions and goroutine timing perturbed per repetition. The order generator shared the stream with its consumer until the repair d045e4b (was a known finding; now an obligation: no random source in its goroutine); map-ordered construction of the per-resource capacity constraints repaired by 688a16e (stream with two capacity resources of different kinds, model rebuilt per repetition); what is delivered must not depend on the consumer's pace (scripted solver, eager vs stalled consumer vs the model).",
           "Coq proof (positive + refutation) + regenerated-skeleton obligation + repeated runs"),
  "C13": E("proof", "Coq theorems (Props/C13.v): what the cycle barrier orders; barrier is not quiescence (two schedules, different finals: refutation); one run / one cycle is schedule independent. Tie: hand-off projection of the regenerated skeleton. Known finding on the unchanged tree.",
           "Coq proof of refutation + partial positive theorem + regenerated-skeleton obligation + repeated runs"),
- "C14": E("proof", "Coq theorems (Props/C14.v): the lockset checker is complete for its definition; mutex exclusion. The checker is evaluated (vm_compute) on the skeletons regenerated from /repo each run: every shared variable with conflicting accesses and no common mutex is reported; listed ones are known findings, any other is a violation. sync.Pool buffers: Props/Pool.v (an accepted borrower uses the buffer only between Get and Put on every path; under that discipline concurrent borrowers never hold or use the same buffer), the borrow programs of all pool users are regenerated from /repo and checked (Oblig/O_C14_pool.v). Go race detector: thorough tier, and as the search for a schedule when an obligation breaks.",
+ "C14": E("proof", "Coq theorems (Props/C14.v): the lockset checker is complete for its definition; mutex exclusion. The checker is evaluated (vm_compute) on the skeletons regenerated from /repo each run: every shared variable with conflicting accesses and no common mutex is reported; listed ones are known findings, any other is a violation. sync.Pool buffers: Props/Pool.v (an accepted borrower uses the buffer only between Get and Put on every path; under that discipline concurrent borrowers never hold or use the same buffer), the borrow programs of all pool users are regenerated from /repo and checked (Oblig/O_C14_pool.v). Field locksets of the observers (objects registered on the model and called by every run): every written field has a mutex common to all its accesses (Oblig/O_C14_fields.v; C14_field_lockset_complete); writes to shared model objects from their read API pinned (O_C14_lazy). Go race detector: thorough tier (also with the performance observer attached), and as the search for a schedule when an obligation breaks.",
           "Coq-evaluated lockset discipline on regenerated skeletons + proof of checker completeness / mutex exclusion",
           "partial: happens-before through channels is not credited; callee-internal races only via the race detector."),
  "C15": E("proof", "Coq theorems (Props/C15.v) for ALL schedules and budgets of the parallel-solver LTS: performed <= budget, reported = performed, parallelism bound, closed is final, every state can close within a bounded number of steps after cancellation, zero budget, barrier. Tie: the REAL parallel solver (NewSkeletonParallelSolver) with scripted factories vs the extracted SolverLoop.pinit/prun on one canonical schedule (iterations granted per started solver, counted at End and in run.Data, solutions delivered) - Props/Grants.v proves these observables independent of the schedule; protocol projection of the regenerated skeletons; option grid on the real solver with event counts and close times.",
@@ -61,7 +61,7 @@ ALL = {
  "C18": E("proof", "Coq theorems (Props/C18.v): on every reachable state, executing a move and un-planning the unit again restores routes, cached values, scores exactly and collections as sets, and the un-plan cannot fail; a probe sequence preserves the solution. Tie: check.SolutionCheck at each verbosity on states of generated histories: the snapshot afterwards must equal the model's unchanged state; units reported plannable are re-planned on a copy taken before the check; a nested stage with stop groups and user constraints whose estimates are optimistic (the check then executes best moves that fail).",
           "Coq proof (execute-then-unplan = identity on observables) + differential snapshots around check.SolutionCheck",
           "nested units are generated on removal-safe models only (elsewhere the non-atomic group un-plan, findings N1-N4, makes the probe non-invertible); alternates are not generated; the solution's random source is not observable."),
- "C19": E("proof", "Coq theorems (Props/C19.v): user constraints are part of the modelled input (bounds on cached fields, per stop or per vehicle, estimate always 'not violated'); on every reachable state every user constraint holds; a rejected move or un-plan restores the solution. Tie: real ModelConstraint implementations in the harness (exact check only) vs the model on histories of checked and unchecked moves and on real solver runs; oracle: the user predicate on every snapshot.",
+ "C19": E("proof", "Coq theorems (Props/C19.v): user constraints are part of the modelled input (bounds on cached fields, per stop or per vehicle, estimate always 'not violated'); on every reachable state every user constraint holds; a rejected move or un-plan restores the solution; Props/SolUser.v: rules with a per-SOLUTION exact check as a guard around the engine (never violated, rejection restores and is genuine, conservative). Tie: real ModelConstraint implementations in the harness (exact check only) vs the model on histories of checked and unchecked moves and on real solver runs; oracle: the user predicate on every snapshot.",
           "Coq proof (engine invariant with user checks, all-or-nothing) + differential histories with real custom constraints + oracle",
           "user constraints of the DSL family (stop-level and vehicle-level bounds on cached fields); solution-level checks and data updaters are not modelled."),
  "C20": E("proof", "Coq theorems (Props/C20.v): every input stop is listed exactly once (route or unplanned), listed values are the solution's, waiting derived as a difference equals the sum of waits, objective total = sum of terms. Tie: factory.ToSolutionOutput on states of generated histories vs the extracted Model/Format.v; search: the projection recomputed from the input on the implementation's snapshots.",
